@@ -11,7 +11,7 @@ COMMON_ASSUMPTIONS = [
 
 PROPS = {
     "C01": {
-        "rules": ["T4", "T5", "T11", "T6", "T3", "G1", "G1c", "G2", "G3", "G4", "G5", "K6", "T13", "N2", "G7", "T2"],
+        "rules": ["T4", "T5", "T11", "T6", "T3", "G1", "G1c", "G2", "G3", "G4", "G5", "K6", "T13", "N2", "G7", "T2", "N5"],
         "decides": "Per-keyword conformance skeleton: one type-guarded validator per keyword, spec comparison "
                    "operators, bool-aware deep JSON equality, member resolution cases, composition counting, "
                    "validate-all-then-construct, recursive parsing of every sub-schema position.",
@@ -27,7 +27,7 @@ PROPS = {
         "not_decided": "equality of the executed module with the parsed model; de-duplication correctness.",
     },
     "C03": {
-        "rules": ["K2", "K4", "T1", "T3", "T6", "T13", "D3", "T15", "K11", "T16", "K13", "T17"],
+        "rules": ["K2", "K4", "T1", "T3", "T6", "T13", "D3", "T15", "K11", "T16", "K13", "T17", "N5"],
         "decides": "no keyword value is overwritten or deleted on the way out; properties and required are "
                    "emitted under JSON names; every constructor keyword is in the enumeration the serializer "
                    "walks; every nested position is recursed; type names invert the parser's.",
@@ -94,7 +94,7 @@ PROPS = {
         "not_decided": "correctness of the ordering for every graph (algorithmic, not a shape).",
     },
     "C12": {
-        "rules": ["N1", "N2", "N3", "T7", "T14", "T12", "N4", "K4", "P2"],
+        "rules": ["N1", "N2", "N3", "T7", "T14", "T12", "N4", "K4", "P2", "N5"],
         "decides": "output alphabet / first character of mapped attribute names, reserved suffix applied last and "
                    "closed; collision handling present; class-name guard present; reserved list covers instance storage.",
         "not_decided": "that dedupe's numeric suffixes never collide with formatted titles.",
@@ -128,7 +128,7 @@ PROPS = {
                        "third-party code).",
     },
     "C17": {
-        "rules": ["G10", "T2", "K6b", "P4", "T12"],
+        "rules": ["G10", "T2", "K6b", "P4", "T12", "G14"],
         "decides": "class-guard idiom gives exact-type, symmetric equality; equality inspects every configuration "
                    "attribute; Property equality covers every field; literal comparison inside equality.",
         "not_decided": "'serialize to the same JSON' for classes (names are deliberately not part of equality).",
